@@ -138,6 +138,20 @@ CHECKS = {
         note="Covering set of addresses/ports, not all 2^32; port 0 (PORT_LOOKUP NONE) is read as 'unspecified'.",
         design_ref="DESIGN.md §4 C07",
     ),
+    "C16": dict(
+        technique="explicit-state BFS over two clients + server with session limit 2 and time-outs 2-3; lock-step reference session model with symbolic connection handles",
+        text="Clients C, C2 and server S on a real LAN; S's user-session-manager with max_remote_sessions 2 and short time-outs; accounts "
+             "admin, u2, a2. BFS over add/disable/enable user, change password (right/wrong current), local login/logout/command, remote "
+             "login through the terminal and through the user-session-manager request (right/wrong password, disabled user), remote command "
+             "on the k-th held connection creating a fresh marker file on S, remote logoff, ticks past the time-out, terminal stop/start "
+             "and power cycles on either end. A reference model of accounts and live sessions (last-active step, limit, time-out) is "
+             "stepped in lock-step: logins succeed only with the current password of an existing enabled account on an ON node below the "
+             "limit; a marker file appears only for a command on a session the model holds live; logout, time-out and password change "
+             "end the session; the last enabled admin is never disabled; describe_state session fields agree with the model; time-out "
+             "processing never raises.",
+        note="Only the 'only' directions of the statement are judged. Sessions surviving a terminal restart / instantaneous reboot follow the code (the statement names logout, time-out and password change as session enders).",
+        design_ref="DESIGN.md §4 C16",
+    ),
     "C17": dict(
         technique="explicit-state BFS over real clients + database server + backup server (switched and routed); lock-step reference database model with symbolic connection handles",
         text="Two clients, a password-protected database service with max_sessions 1/2, its FTP client and a backup FTP server on real "
